@@ -46,3 +46,10 @@ Definition gcase_show (c : gcase) :=
   let '(st, conns, refd, defd, miss, compiled) := c in
   (gcase_flags c, extract_connections st, missing st,
    conns_eq (extract_connections_unpatched st) conns && set_eq_s (missing_unpatched st) miss).
+
+(* does the implementation behave like the tree before F18a on this case?  (used only to name the
+   finding when gcase_bad holds) *)
+Definition gcase_bad_unpatched (c : gcase) : bool :=
+  let '(st, conns, refd, defd, miss, compiled) := c in
+  negb (conns_eq (extract_connections_unpatched st) conns && set_eq_s (referenced_unpatched st) refd &&
+        set_eq_s (defined st) defd && set_eq_s (missing_unpatched st) miss).
